@@ -1,6 +1,21 @@
 package main
 
-// schedHook is the entry point of the schedule controller (see sched mode); a no-op for sequential runs.
+import (
+	"bufio"
+	"bytes"
+	"encoding/json"
+	"fmt"
+	"os"
+	"runtime"
+	"strconv"
+	"strings"
+	"sync"
+	"time"
+)
+
+// Schedule controller: goroutines started by `spawn` are parked at instrumentation points (verifPoint) and released
+// in a scripted order, so that a chosen interleaving of the implementation's atomic actions is executed deterministically.
+
 var schedHookFn func(point string, args ...any)
 
 func schedHook(point string, args ...any) {
@@ -8,3 +23,284 @@ func schedHook(point string, args ...any) {
 		f(point, args...)
 	}
 }
+
+func goid() int64 {
+	var buf [64]byte
+	n := runtime.Stack(buf[:], false)
+	f := bytes.Fields(buf[:n])
+	if len(f) < 2 {
+		return -1
+	}
+	id, _ := strconv.ParseInt(string(f[1]), 10, 64)
+	return id
+}
+
+type parkSpec struct {
+	point string
+	nth   int
+	seen  int
+}
+
+type thread struct {
+	name     string
+	parks    []*parkSpec
+	parkedAt string
+	parked   chan struct{} // signalled when the thread parks
+	resume   chan struct{}
+	done     chan struct{}
+	result   string
+}
+
+type controller struct {
+	mu      sync.Mutex
+	byGid   map[int64]*thread
+	threads map[string]*thread
+	// pseudo-threads for goroutines the implementation starts itself (timer, feed): claimed by point name
+	claims map[string]*thread
+	trace  []string
+}
+
+func newController() *controller {
+	c := &controller{byGid: map[int64]*thread{}, threads: map[string]*thread{}, claims: map[string]*thread{}}
+	schedHookFn = c.hook
+	return c
+}
+
+func (c *controller) get(name string) *thread {
+	c.mu.Lock()
+	defer c.mu.Unlock()
+	t := c.threads[name]
+	if t == nil {
+		t = &thread{name: name, parked: make(chan struct{}, 16), resume: make(chan struct{}, 16), done: make(chan struct{})}
+		c.threads[name] = t
+	}
+	return t
+}
+
+func (c *controller) hook(point string, args ...any) {
+	g := goid()
+	c.mu.Lock()
+	t := c.byGid[g]
+	if t == nil {
+		// a goroutine of the implementation's own (expiry timer, feed): a pseudo-thread may have claimed this point
+		if ct := c.claims[point]; ct != nil {
+			t = ct
+		}
+	}
+	if t == nil {
+		c.mu.Unlock()
+		return
+	}
+	var hit *parkSpec
+	for _, p := range t.parks {
+		if p.point == point {
+			p.seen++
+			if p.seen == p.nth {
+				hit = p
+			}
+		}
+	}
+	if hit == nil {
+		c.mu.Unlock()
+		return
+	}
+	t.parkedAt = point
+	c.trace = append(c.trace, t.name+"@"+point)
+	c.mu.Unlock()
+	t.parked <- struct{}{}
+	<-t.resume
+	c.mu.Lock()
+	t.parkedAt = ""
+	c.mu.Unlock()
+}
+
+type schedStep struct {
+	Do     string `json:"do"`     // run | park | claim | spawn | await | release | join | sleep
+	Thread string `json:"thread"` // for park/claim/spawn/await/release/join
+	Point  string `json:"point"`
+	Nth    int    `json:"nth"`
+	Line   string `json:"line"` // op line for run/spawn
+	Ms     int    `json:"ms"`
+}
+
+type schedScenario struct {
+	Name  string      `json:"name"`
+	Kind  string      `json:"kind"` // mem | disk | reg
+	Steps []schedStep `json:"steps"`
+}
+
+// schedMode runs scenarios read (one JSON object per line) from -in, printing one JSON result per scenario.
+func schedMode(args []string) int {
+	in, out := "", ""
+	for i := 0; i+1 < len(args); i += 2 {
+		switch args[i] {
+		case "-in":
+			in = args[i+1]
+		case "-out":
+			out = args[i+1]
+		}
+	}
+	f, err := os.Open(in)
+	if err != nil {
+		fmt.Fprintln(os.Stderr, err)
+		return 2
+	}
+	defer f.Close()
+	of := os.Stdout
+	if out != "" {
+		of, err = os.Create(out)
+		if err != nil {
+			fmt.Fprintln(os.Stderr, err)
+			return 2
+		}
+		defer of.Close()
+	}
+	w := bufio.NewWriter(of)
+	defer w.Flush()
+	sc := bufio.NewScanner(f)
+	sc.Buffer(make([]byte, 1<<20), 1<<26)
+	for sc.Scan() {
+		line := strings.TrimSpace(sc.Text())
+		if line == "" {
+			continue
+		}
+		var s schedScenario
+		if err := json.Unmarshal([]byte(line), &s); err != nil {
+			fmt.Fprintln(os.Stderr, "bad scenario:", err)
+			return 2
+		}
+		res := runScenario(s)
+		b, _ := json.Marshal(res)
+		w.Write(b)
+		w.WriteByte('\n')
+		w.Flush()
+		if res["stuck"] == true {
+			// a deadlocked implementation cannot be torn down: leave the process
+			return 3
+		}
+	}
+	return 0
+}
+
+func runScenario(s schedScenario) map[string]any {
+	ctl := newController()
+	defer func() { schedHookFn = nil }()
+	var execLine func(l Line) string
+	var closeWorld func()
+	if s.Kind == "reg" {
+		rw := newRegWorld()
+		execLine = rw.exec
+		closeWorld = rw.close
+	} else {
+		kw, err := newWorld(s.Kind)
+		if err != nil {
+			return map[string]any{"name": s.Name, "error": err.Error()}
+		}
+		execLine = kw.exec
+		closeWorld = kw.close
+	}
+	results := []map[string]string{}
+	stuck := false
+	wait := func(ch chan struct{}, d time.Duration) bool {
+		select {
+		case <-ch:
+			return true
+		case <-time.After(d):
+			return false
+		}
+	}
+	for i, st := range s.Steps {
+		switch st.Do {
+		case "run":
+			l, _ := parseLine(st.Line)
+			ch := make(chan string, 1)
+			go func() { ch <- execLine(l) }()
+			select {
+			case r := <-ch:
+				results = append(results, map[string]string{"step": strconv.Itoa(i), "line": st.Line, "result": r})
+			case <-time.After(10 * time.Second):
+				results = append(results, map[string]string{"step": strconv.Itoa(i), "line": st.Line, "result": "r=hang"})
+				stuck = true
+			}
+		case "park":
+			t := ctl.get(st.Thread)
+			n := st.Nth
+			if n == 0 {
+				n = 1
+			}
+			ctl.mu.Lock()
+			t.parks = append(t.parks, &parkSpec{point: st.Point, nth: n})
+			ctl.mu.Unlock()
+		case "claim":
+			t := ctl.get(st.Thread)
+			ctl.mu.Lock()
+			ctl.claims[st.Point] = t
+			ctl.mu.Unlock()
+		case "spawn":
+			t := ctl.get(st.Thread)
+			l, _ := parseLine(st.Line)
+			started := make(chan struct{})
+			go func() {
+				ctl.mu.Lock()
+				ctl.byGid[goid()] = t
+				ctl.mu.Unlock()
+				close(started)
+				t.result = execLine(l)
+				close(t.done)
+			}()
+			<-started
+		case "await":
+			t := ctl.get(st.Thread)
+			if !wait(t.parked, 5*time.Second) {
+				results = append(results, map[string]string{"step": strconv.Itoa(i), "thread": st.Thread, "result": "await-timeout:" + st.Point})
+			}
+		case "release":
+			t := ctl.get(st.Thread)
+			t.resume <- struct{}{}
+		case "join":
+			t := ctl.get(st.Thread)
+			if wait(t.done, 10*time.Second) {
+				results = append(results, map[string]string{"step": strconv.Itoa(i), "thread": st.Thread, "result": t.result})
+			} else {
+				results = append(results, map[string]string{"step": strconv.Itoa(i), "thread": st.Thread, "result": "r=hang"})
+				stuck = true
+			}
+		case "sleep":
+			time.Sleep(time.Duration(st.Ms) * time.Millisecond)
+		}
+		if stuck {
+			break
+		}
+	}
+	ctl.mu.Lock()
+	trace := append([]string(nil), ctl.trace...)
+	ctl.mu.Unlock()
+	out := map[string]any{"name": s.Name, "results": results, "trace": trace, "stuck": stuck}
+	if stuck {
+		buf := make([]byte, 1<<16)
+		n := runtime.Stack(buf, true)
+		out["goroutines"] = string(buf[:n])
+		return out
+	}
+	// release anything still parked so that the world can be torn down
+	ctl.mu.Lock()
+	for _, t := range ctl.threads {
+		for len(t.parks) > 0 {
+			t.parks = nil
+		}
+		select {
+		case t.resume <- struct{}{}:
+		default:
+		}
+	}
+	ctl.mu.Unlock()
+	done := make(chan struct{})
+	go func() { closeWorld(); close(done) }()
+	if !wait(done, 10*time.Second) {
+		out["stuck"] = true
+		out["teardown"] = "hang"
+	}
+	return out
+}
+
+func init() { extraModes["sched"] = schedMode }
